@@ -528,11 +528,12 @@ func main() {
 	bex.Main(&bex.Check{
 		ID:    "C02",
 		Level: "exploration",
-		Rule: "each enumerated program is generated twice (optimizer on / removed) on generators with counting host functions tick (declared impure) and ptick (declared pure) and evaluated on every argument tuple; outcomes (forced value by kind and content, or error) and tick counts must agree, tick must not run during Generate, and on successful evaluations the tick count must equal the reference interpreter's. distinct_nontrivial = distinct source texts whose unoptimized outcome on some tuple is a value other than 0",
+		Rule:  "each enumerated program is generated twice (optimizer on / removed) on generators with counting host functions tick (declared impure) and ptick (declared pure) and evaluated on every argument tuple; outcomes (forced value by kind and content, or error) and tick counts must agree, tick must not run during Generate, and on successful evaluations the tick count must equal the reference interpreter's. distinct_nontrivial = distinct source texts whose unoptimized outcome on some tuple is a value other than 0",
 		Assumptions: []string{"float constants are dyadic (0.5, 2.0) so regrouped arithmetic is exact and the rounding allowance of the property is never needed",
 			"the float and bool instantiations of the generic generator are covered by C19's check (optimizer on/off against direct evaluation)"},
 		QuickBudget: 60e9, ThoroughBudget: 25 * 60e9,
-		Run:    run,
-		Replay: replay,
+		Run:              run,
+		Replay:           replay,
+		CrashIsViolation: true, // a worker process that dies while it executes a case on the library is a verdict on that case
 	})
 }
